@@ -1408,7 +1408,17 @@ class Interp:
     def s_AugAssign(self, n):
         cur = self.eval(_as_load(n.target))
         if isinstance(cur, SMat):
-            raise Unsupported("in-place array update (aliasing)")
+            # numpy: `a += b` updates the array object IN PLACE - every alias (e.g. an array stored in the filter) sees it
+            if self.merge_depth or not isinstance(n.op, (ast.Add, ast.Sub)):
+                raise Unsupported("in-place array update (aliasing)")
+            new = self.binop(n.op, cur, self.eval(n.value))
+            if not isinstance(new, SMat):
+                raise Unsupported("in-place array update with a non-array result")
+            from .np_model import shape_eq
+
+            self.raise_if(z3.Not(shape_eq((new.rows(), new.cols()), (cur.rows(), cur.cols()))), "ValueError")
+            cur.term, cur.cells = new.term, new.cells
+            return
         if isinstance(cur, PyList) and isinstance(n.op, ast.Add):
             ext = self.eval(n.value)
             return self.call(cur.method(self, "extend"), [ext], {})
@@ -1485,6 +1495,13 @@ class Interp:
         if isinstance(f, ExcV):
             return f.name
         if isinstance(f, ClassV) and f.name in EXC_BASES:
+            init = f.methods.get("__init__") if hasattr(f, "methods") else None
+            if isinstance(node, ast.Call) and isinstance(init, Closure):
+                # an exception class of the repository with its OWN constructor: the constructor runs (and may itself raise)
+                args = [self.eval(a) for a in node.args]
+                kwargs = {k.arg: self.eval(k.value) for k in node.keywords if k.arg}
+                obj = SObj(f, {}, self.path.names.fresh(f.name.lower()))
+                self.run_closure(init, [obj] + args, kwargs)
             return f.name
         raise Unsupported(f"raise of {f!r}")
 
